@@ -75,8 +75,14 @@ def registry_complete(ctx):
 
 
 # --------------------------------------------------------------------------- dunder-agreement
-def _eval_dunder(ctx, repo, cls, name, other):
+def _same_tree(a, b):
+    """Equal normal forms up to the class tag of the variables (x of the recorder against x of the multivector)."""
+    return repr(a) == repr(b)
+
+
+def _eval_dunder(ctx, repo, cls, name, other, oracle=None):
     it = make_interp(repo)
+    it.branch_oracle = oracle
     x = T.var("x", cls)
     try:
         return ("return", it._method(x, name, [other] if other is not None else [], {}))
@@ -132,8 +138,24 @@ def dunder_agreement(ctx):
         # at least one side has a Python body: compare normal forms for plain-number left/right operands
         agree = True
         facts = {}
-        for number in ((5, 7) if (reflected or n in BINARY_DUNDERS) else (None,)):
+        others = ((5, 7) + (() if reflected else ("y",))) if (reflected or n in BINARY_DUNDERS) else (None,)
+        for number in others:
             try:
+                if number == "y":
+                    # another operand of the same class: conditions on it that the tree does not fix are followed both ways,
+                    # and every way the recorder can take must agree with the multivector
+                    from ..absint import explore_branches
+                    b = _eval_dunder(ctx, repo, "MultiVector", n, T.var("y", "MultiVector"))
+                    paths = explore_branches(lambda o: _eval_dunder(ctx, repo, "TapeRecorder", n, T.var("y", "TapeRecorder"), o))
+                    bad_paths = [(dec, out) for dec, out in paths if out[0] == "return" and not (isinstance(out[1], T) and isinstance(b[1], T) and _same_tree(out[1], b[1]))]
+                    if any(isinstance(out[1], Unk) for _, out in paths if out[0] == "return") or (b[0] == "return" and isinstance(b[1], Unk)):
+                        raise Unknown(c, f"Python-bodied dunder evaluates to an unknown value for a recorder operand", r.node)
+                    facts["recorder operand"] = {"paths": len(paths), "multivector": repr(b[1])}
+                    if b[0] == "return" and bad_paths:
+                        dec, out = bad_paths[0]
+                        agree = False
+                        facts["recorder operand"]["differs"] = {"when": [f"{k} is {v}" for k, v in dec], "recorder": repr(out[1])}
+                    continue
                 a = _eval_dunder(ctx, repo, "TapeRecorder", n, number)
                 b = _eval_dunder(ctx, repo, "MultiVector", n, number)
             except NoValue as exc:
@@ -273,13 +295,21 @@ def norm_trees(ctx, repo, cls):
     for name, want in spec.items():
         qual = f"{module}.{cls}.{name}"
         fn = ctx.func(qual)
-        it = make_interp(repo)
+        from ..absint import explore_branches
+
+        def run_(oracle):
+            it = make_interp(repo)
+            it.branch_oracle = oracle
+            return it.run(qual, [x])
         try:
-            out = it.run(qual, [x])
+            paths = explore_branches(run_)
         except NoValue as exc:
             raise Unknown(qual, str(exc), fn)
+        # conditions the operand tree does not fix are followed both ways: every path has to give the definition
+        wrong = [(dec, o) for dec, o in paths if not (o[0] == "return" and isinstance(o[1], T) and o[1] == want)]
+        out = wrong[0][1] if wrong else paths[0][1]
         if out[0] == "return" and isinstance(out[1], T) and out[1] == want:
-            ctx.ok(qual, fn, normal_form=repr(out[1]))
+            ctx.ok(qual, fn, normal_form=repr(out[1]), paths=len(paths))
         elif out[0] == "raise" and cls == "TapeRecorder":
             ctx.ok(qual, fn, outcome=f"raises {out[1]}")
         elif out[0] == "return" and isinstance(out[1], Unk):
@@ -415,7 +445,7 @@ def check_coefficient_kind(ctx, repo, qual):
         ctx.violation(c, "a non-blade attribute name returns a value instead of raising AttributeError", fn)
 
 
-@rule("C11.coefficient-kind", props=["C11", "C15", "C14"], min_instances=10, mutants=[
+@rule("C11.coefficient-kind", props=["C11", "C15", "C14", "C12"], min_instances=10, mutants=[
     ("coefficient keeps its blade key", ("taperecorder", "                keys=(0,)\n            )\n\n    def grade", "                keys=(self.keys()[idx],)\n            )\n\n    def grade")),
 ])
 def coefficient_kind(ctx):
@@ -424,27 +454,23 @@ def coefficient_kind(ctx):
 
 
 # --------------------------------------------------------------------------- grade
-def _parse_grade_expr(expr: str):
-    """'[X[idx] for idx in (1, 3)]' -> [1, 3]; '[X[1], X[3]]' -> [1, 3]."""
+def _parse_grade_expr(expr: str, n: int = 16, repo=None):
+    """Which positions of its argument the recorded expression selects, in order: the expression is evaluated by the
+    interpreter with X bound to the list of positions [0, 1, ..., n-1] (whatever its spelling: a comprehension over an
+    index tuple, a list of subscripts, a slice, operator.itemgetter, ...)."""
     try:
         t = ast.parse(expr, mode="eval").body
     except SyntaxError:
         return None
-    if isinstance(t, ast.ListComp) and len(t.generators) == 1 and isinstance(t.elt, ast.Subscript) \
-            and isinstance(t.elt.value, ast.Name) and t.elt.value.id == "X" and un(t.elt.slice) == un(t.generators[0].target):
-        try:
-            it = ast.literal_eval(t.generators[0].iter)
-        except Exception:
-            return None
-        return list(it)
-    if isinstance(t, (ast.List, ast.Tuple)):
-        out = []
-        for e in t.elts:
-            if isinstance(e, ast.Subscript) and isinstance(e.value, ast.Name) and e.value.id == "X" and isinstance(e.slice, ast.Constant):
-                out.append(e.slice.value)
-            else:
-                return None
-        return out
+    from ..absint import Interp, Env, Raised
+    from ..model import Repo
+    it = Interp(repo or Repo({}, {}, "expr"), {}, {}, max_steps=20000)
+    try:
+        v = it.eval(t, Env({"X": list(range(n))}, {}, "<recorded>", it))
+    except (NoValue, Raised):
+        return None
+    if isinstance(v, (list, tuple)) and all(isinstance(i, int) and not isinstance(i, bool) for i in v):
+        return list(v)
     return None
 
 
@@ -452,6 +478,9 @@ def _parse_grade_expr(expr: str):
     ("keys in canonical order, indices in storage order", ("taperecorder", "        indices_keys = [(idx, k) for idx, k in enumerate(self.keys()) if k in basis_blades]\n        indices, keys = zip(*indices_keys) if indices_keys else (tuple(), tuple())",
                                                             "        keys = tuple(k for k in basis_blades if k in self.keys())\n        indices = tuple(idx for idx, k in enumerate(self.keys()) if k in basis_blades)")),
     ("grade selects the complement", ("taperecorder", "for idx, k in enumerate(self.keys()) if k in basis_blades]", "for idx, k in enumerate(self.keys()) if k not in basis_blades]")),
+    ("consecutive grades are taken out as one slice of the argument", ("taperecorder", "        expr = f\"[{self.expr}[idx] for idx in {indices}]\"", "        expr = f\"list({self.expr}[{indices[0]}:{indices[-1] + 1}])\" if indices else f\"[{self.expr}[idx] for idx in {indices}]\"")),
+], rewrites=[
+    ("selected coefficients spelled one by one", ("taperecorder", "        expr = f\"[{self.expr}[idx] for idx in {indices}]\"", "        expr = \"[\" + \", \".join(f\"{self.expr}[{idx}]\" for idx in indices) + \"]\"")),
 ])
 def grade(ctx):
     """Recorded grade selection pairs every selected key with the position of that key in the recorder's own
@@ -476,7 +505,7 @@ def grade(ctx):
         v = out[1]
         if not (isinstance(v, Obj) and v.kind == "TapeRecorder" and isinstance(v.attrs.get("expr"), str)):
             raise Unknown(c, f"grade returns {v!r}", fn)
-        idxs = _parse_grade_expr(v.attrs["expr"])
+        idxs = _parse_grade_expr(v.attrs["expr"], len(keys))
         rkeys = v.attrs.get("_keys")
         if idxs is None or rkeys is None:
             raise Unknown(c, f"unrecognised recorded expression {v.attrs['expr']!r}", fn)
